@@ -1625,7 +1625,7 @@ def make_life_check(pid, gens):
         res.rule = LIFE_RULES[pid] + "; every scenario is predicted by the LTS (Sys.v, canonical scheduler to quiescence) and forced on a real server in a worker process; after each operation the observed snapshot (ready, Run/Stop returns, port, per connection: id, handlers started/ended, closed, OnClose count) must become and stay the predicted one; one evaluation = one scenario"
     CHECKS[pid] = fn
 
-for _pid, _g in [("C06", ["c06"]), ("C07", ["c07", "c07accept", "c07stall"]), ("C08", ["c08", "c08edges"]), ("C09", ["c09"]), ("C10", ["c10"]), ("C11", ["c11", "c11accept"]), ("C12", ["c12", "c12accept", "c12slowstop"]), ("C13", ["c13"])]:
+for _pid, _g in [("C06", ["c06"]), ("C07", ["c07", "c07accept", "c07stall"]), ("C08", ["c08", "c08edges"]), ("C09", ["c09", "c07accept"]), ("C10", ["c10"]), ("C11", ["c11", "c11accept"]), ("C12", ["c12", "c12accept", "c12slowstop"]), ("C13", ["c13"])]:
     make_life_check(_pid, _g)
 
 
